@@ -33,6 +33,10 @@ func init() { propFactories["C19"] = newC19 }
 func (p *c19) ID() string { return "C19" }
 
 var c19Corpus = []string{
+	// several functions with the same body, with constants to fold
+	"function a(x) { return x + 2 * 3 + 4; } function b(x) { return x + 2 * 3 + 4; } function c(x) { return x + 2 * 3 + 4; } return a(1) + b(2) + c(3);",
+	"function p1() { if (1 + 1 == 2) { return 6 * 7; } return 0; } function p2() { if (1 + 1 == 2) { return 6 * 7; } return 0; } function p3() { if (1 + 1 == 2) { return 6 * 7; } return 0; } function p4() { if (1 + 1 == 2) { return 6 * 7; } return 0; } return p1() + p2() + p3() + p4();",
+	"function u(a, b) { local t; t = 10 / 2 + a; return t * (3 - 1) + b; } function v(a, b) { local t; t = 10 / 2 + a; return t * (3 - 1) + b; } return u(1, 2) == v(1, 2);",
 	`x = {1: "i", "1": "s", 1.0: "f"}; hv(string(x)); return string(x);`,
 	`x = {"a": 1, "a": 2}; hv(x); return x["a"];`,
 	`r = ""; foreach k, v in {1: "i", "1": "s"} { r = r + v; hv(k, v); } return r;`,
@@ -108,6 +112,8 @@ type c19Obs struct {
 	prep2   string
 	after   string
 	traceA  string
+	prep3   string
+	dump3   string
 }
 
 // c19PtrObj has pointer members: whatever the engine makes of them must not
@@ -226,6 +232,20 @@ func (p *c19) execute(cs *c19Case, pol *verifsim.OrderPolicy) *c19Obs {
 		ob.after = r.String()
 		ob.traceA = joinTrace(h.Trace)
 	}
+	// another text in between (the exported Script field is the documented
+	// way to change the filter of an existing evaluator): text -> other ->
+	// text must give the program of the first Prepare again
+	pool := scriptPool()
+	other := pool[(len(cs.text)*31+len(cs.names))%len(pool)]
+	e.Script = other
+	doPrepare(e, cs.opt)
+	e.Script = cs.text
+	err, esc = doPrepare(e, cs.opt)
+	ob.prep3 = fmt.Sprint(err, esc)
+	if err == nil && esc == nil {
+		d, _, _ = doDump(e)
+		ob.dump3 = normDump(d)
+	}
 	return ob
 }
 
@@ -269,6 +289,9 @@ func (a *c19Obs) diff(b *c19Obs) (string, string) {
 	}
 	if a.traceA != b.traceA {
 		return "host-trace-after-second-prepare", fmt.Sprintf("[%s] vs [%s]", a.traceA, b.traceA)
+	}
+	if a.prep3 != b.prep3 || a.dump3 != b.dump3 {
+		return "program-after-another-script", firstDiff(a.dump3, b.dump3)
 	}
 	return "", ""
 }
@@ -440,6 +463,8 @@ func (p *c19) Run(c *verifsim.Chooser, st *Stats, render bool) *Outcome {
 	// the second Prepare must give the program the first one gave
 	if ref.prep2 != "<nil> <nil>" {
 		o.violate("C19/second-prepare", "fails", "Prepare succeeded the first time and failed the second time on the same evaluator: %s", ref.prep2)
+	} else if ref.prep3 == ref.prep2 && ref.dump3 != ref.dump1 {
+		o.violate("C19/second-prepare", "program-differs-after-another-script", "the same text, prepared again after another script had been prepared on the same evaluator in between, gives another program:\n%s", firstDiff(ref.dump1, ref.dump3))
 	} else if ref.dump2 != ref.dump1 {
 		o.violate("C19/second-prepare", "program-differs", "the program after a second Prepare of the same evaluator differs from the first:\n%s", firstDiff(ref.dump1, ref.dump2))
 	}
